@@ -14,6 +14,7 @@ import time
 import zlib
 
 import faults
+import wire_kernel
 from faults import FakePipe, FakeSocket, Script, ScriptExhausted, patched_stream_os
 from lineproto import run_driver, DriverError
 from pipeline import Corr
@@ -88,13 +89,17 @@ def max_of(kind, mx):
 
 
 @contextlib.contextmanager
-def open_stream(kind, mx, wire=b"", rscript=(), sscript=()):
+def open_stream(kind, mx, wire=b"", rscript=(), sscript=(), pscript=None, close_fault=None, shutdown_fault=False):
     cls = stream_class(kind, mx)
+    ps = None if pscript is None else Script(pscript)
     if kind == "sock":
-        tr = FakeSocket(wire=wire, recv_script=Script(rscript), send_script=Script(sscript))
-        yield cls(tr), tr
+        tr = FakeSocket(wire=wire, recv_script=Script(rscript), send_script=Script(sscript), poll_script=ps,
+                        close_fault=bool(close_fault), shutdown_fault=shutdown_fault)
+        with patched_stream_os(tr):
+            yield cls(tr), tr
     else:
-        tr = FakePipe(wire=wire, recv_script=Script(rscript), send_script=Script(sscript))
+        tr = FakePipe(wire=wire, recv_script=Script(rscript), send_script=Script(sscript), poll_script=ps,
+                      close_fault=close_fault)
         with patched_stream_os(tr):
             yield cls(tr.incoming, tr.outgoing), tr
 
@@ -171,6 +176,53 @@ def run_swrites(kind, mx, sscript, datas):
             except Exception as ex:  # noqa
                 out.append(err_name(ex))
         return dict(results=out, closed=closed_text(stream, tr), left=tr.send_script.remaining(), sent=bytes(tr.sent))
+
+
+def xname(ex):
+    """exception classes as the duplex model names them: every OSError that is not EOFError is 'OSError'"""
+    if isinstance(ex, EOFError):
+        return "EOFError"
+    if isinstance(ex, OSError):
+        return "OSError"
+    return err_name(ex)
+
+
+def run_duplex(case, packets_out):
+    """ONE real stream (and channel) used in both directions, calls in the order of case['ops'], continuing after
+    exceptions; `packets_out` are the materialised packets of the S ops, in order"""
+    channel, _S = mods()
+    kind = "pipe" if case["pipe"] else "sock"
+    with open_stream(kind, case["max"], wire=bytes.fromhex(case["wire"]), rscript=case["rscript"],
+                     sscript=case["sscript"], pscript=case["pscript"], close_fault=case["fault"] or None,
+                     shutdown_fault=case.get("shutdown_fault", False)) as (stream, tr):
+        chan = channel.Channel(stream, compress=case["c"])
+        out, it = [], iter(packets_out)
+        for op in case["ops"]:
+            try:
+                if op[0] == "S":
+                    chan.send(next(it))
+                    out.append("ok")
+                elif op == "R":
+                    out.append("ok:x" + chan.recv().hex())
+                elif op == "P":
+                    out.append(tf(stream.poll(0)))
+                elif op == "C":
+                    stream.close()
+                    out.append("ok")
+                elif op[0] == "r":
+                    out.append("ok:x" + stream.read(int(op[1:])).hex())
+                elif op[0] == "w":
+                    stream.write(bytes.fromhex(op[2:]))
+                    out.append("ok")
+                else:
+                    raise ValueError(op)
+            except ScriptExhausted:
+                out.append("starved")
+            except Exception as ex:  # noqa
+                out.append(xname(ex))
+        return dict(results=out, closed=tf(stream.closed), rleft=tr.recv_script.remaining(),
+                    sleft=tr.send_script.remaining(), pleft=tr.poll_script.remaining(), rest=tr.wire_left(),
+                    sent=bytes(tr.sent))
 
 
 # ----------------------------------------------------------------------------------------------- packets
@@ -424,6 +476,82 @@ def gen_rawwire_cases(r, ctx):
                    ncalls=n + 1, table=[p.hex() for p in table], muts=muts)
 
 
+def gen_duplex_cases(r, ctx):
+    """one stream object, both directions, calls in any order: send / recv / poll / close / raw read / raw write;
+    healthy and failing scripts, failing poll / fileno, the descriptor's own close() raising"""
+    channel, _S = mods()
+    t = channel.Channel.COMPRESSION_THRESHOLD
+    ev_r = ["c1", "c2", "c3", "c7", "c100", "c64000", "c0", "t", faults.EAGAIN, faults.RESET, "z", faults.EPIPE]
+    ev_s = ["a1", "a2", "a5", "a100", "a64000", "a0", "t", faults.EAGAIN, faults.RESET, faults.EPIPE]
+    for i in range(ctx.budget(700, 30000)):
+        pipe = r.chance(1, 2)
+        kind = "pipe" if pipe else "sock"
+        mode = r.choice(["healthy", "healthy", "faulty", "closefault", "closefault", "pollfault"])
+        peer_c = r.chance(1, 2)
+        inc = [[r.choice([0, 1, 5, 40, 300, t + 1]), r.choice("cr"), r.below(999)] for _ in range(r.below(4))]
+        inc_p = [make_packet(x) for x in inc]
+        wire = run_send("sock", peer_c, None, inc_p, ["a%d*%d" % (BIG, wire_bound(inc_p) + 3)])["sent"]
+        if r.chance(1, 4) and wire:
+            wire = wire[:r.below(len(wire) + 1)]
+        L = len(wire)
+        if mode in ("healthy", "pollfault"):
+            rscript = faults.random_benign(r, L, "c", pieces=8, noise=SOCK_NOISE if not pipe else [])
+            sscript = ["a%d" % r.choice([1, 3, 7, 100, 64000]) for _ in range(r.below(6))] + ["a7*9000"]
+        else:
+            rscript = [r.choice(ev_r) for _ in range(r.below(14))]
+            sscript = [r.choice(ev_s) for _ in range(r.below(10))]
+        pool = ["r", "r", "i", "n"] + (["s5", "g", "s9"] + ([] if pipe else [faults.RESET.replace("e", "f"), "f9"])
+                                        if mode == "pollfault" else [])
+        pscript = [r.choice(pool) for _ in range(r.range(0, 12))] + (["r*6"] if mode != "pollfault" else [])
+        fault = 0 if mode != "closefault" else (r.choice([1, 2]) if pipe else 1)
+        ops, outs = [], []
+        for _ in range(r.range(3, 12)):
+            k = r.below(12 if mode in ("healthy",) else 16)
+            if k < 4:
+                spec = [r.choice([0, 1, 2, 9, 11, 30, t + 1]) if r.chance(5, 6) else 7000, r.choice("cr"), r.below(999)]
+                outs.append(spec)
+                ops.append("S")
+            elif k < 9:
+                ops.append("R")
+            elif k < 12:
+                ops.append("P")
+            elif k == 12:
+                ops.append("C")
+            elif k == 13:
+                ops.append("r%d" % r.choice([0, 1, 3, 9]))
+            else:
+                ops.append("wx" + r.bytes(r.choice([0, 1, 4])).hex())
+        yield dict(op="duplex", group="S7-duplex:" + mode, pipe=pipe, max=r.choice([None, None, 16, 5, 100]),
+                   c=r.chance(1, 2), fault=fault, shutdown_fault=(not pipe and r.chance(1, 4)), rscript=rscript,
+                   sscript=sscript, pscript=pscript, wire=wire.hex(), incoming=inc, peer_c=peer_c, ops=ops, outgoing=outs)
+
+
+def gen_kernel_cases(r, ctx):
+    """transfers over a real socketpair / real pipes (wire_kernel.py)"""
+    channel, S = mods()
+    t = channel.Channel.COMPRESSION_THRESHOLD
+    m = S.SocketStream.MAX_IO_CHUNK
+    for i in range(ctx.budget(10, 400)):
+        kind = ("sock", "pipe")[i % 2]
+        flavour = ["plain", "cut", "nonblocking", "reset", "reader-dies", "plain"][(i // 2) % 6]
+        n = r.range(1, 5)
+        pool = [0, 1, 7, 300, t - 1, t, t + 1, 9000, m - 7, m - 6, m - 5, m + 1]
+        specs = [[r.choice(pool) if r.chance(4, 5) else 150000, r.choice("cr"), r.below(999)] for _ in range(n)]
+        case = dict(op="kernel", group="S8-kernel:" + flavour, kind=kind, seed=r.below(10 ** 9), packets=specs,
+                    cs=r.chance(1, 2), cr=r.chance(1, 2), bufsize=r.choice([2048, 4096, 16384, 212992]),
+                    cut=None, reader_stops_after=None, nonblocking=False, timeouts=[0, 1], reset=False)
+        if flavour == "cut":
+            case["cut"] = r.range(0, 40)
+        elif flavour == "nonblocking" and kind == "sock":
+            case["nonblocking"], case["timeouts"] = True, [1, 6]
+        elif flavour == "reset" and kind == "sock":
+            case["reset"] = True
+        elif flavour == "reader-dies":
+            case["packets"] = [[0, "r", 1]] + [[r.choice([70000, 150000, 250000]), "r", j] for j in range(4)]
+            case["reader_stops_after"] = 1
+        yield case
+
+
 # ----------------------------------------------------------------------------------------------- running one case
 def scripts_for(case, packets):
     """materialise the family scripts of a case (deterministic per case)"""
@@ -472,7 +600,7 @@ def xfer_lines(case, packets, sscript, rscript, snd, ncalls):
 def compact(case):
     """the case as stored in evidence / disagreements / replays (scripts in text form)"""
     c = dict(case)
-    for k in ("sscript", "rscript", "script"):
+    for k in ("sscript", "rscript", "script", "pscript"):
         if k in c:
             c[k] = Script(c[k]).text()
             if len(c[k]) > 4000:
@@ -593,7 +721,139 @@ def feed_case(case, batch, corr, seen_writes):
             corr.count("rawwire:" + m)
         corr.signatures.add(("rawrecv", case["kind"], tuple(case["muts"]), res["end"], len(res["got"])))
         return dict(case=compact(case), outcome=recv_text(res)[:160])
+    if op == "duplex":
+        outs = [make_packet(x) for x in case["outgoing"]]
+        res = run_duplex(case, outs)
+        want = " ".join(res["results"]) + " | %s %d %d %d %d x%s" % (
+            res["closed"], res["rleft"], res["sleft"], res["pleft"], res["rest"], res["sent"].hex())
+        batch.add(duplex_line(case, outs), want, case, "duplex")
+        kinds = tuple(x.split(":")[0] for x in res["results"])
+        for o, x in zip(case["ops"], kinds):
+            corr.count("impl:duplex:%s:%s" % (o[0], x))
+        corr.count("group:" + case["group"])
+        corr.signatures.add(("duplex", case["group"], case["pipe"], case["fault"], tuple(o[0] for o in case["ops"]), kinds,
+                             res["closed"]))
+        msg = duplex_property(case, res, outs)
+        if msg:
+            corr.disagreements.append(dict(op="duplex-oracle", case=compact(case), impl=msg, model="(direct oracle)"))
+        return dict(case=compact(dict(case, wire=case["wire"][:120])), outcome=want[:200])
+    if op == "kernel":
+        packets, tail, res = run_kernel(case)
+        msg = kernel_property(case, packets, res)
+        if msg:
+            corr.disagreements.append(dict(op="kernel-oracle", case=compact(case), impl=msg, model="(direct oracle)"))
+        cs = case["cs"]
+        mx = max_of(case["kind"], None)
+        toks = [pkt_token(p, cs) for p in packets]
+        want_s = "%d %s %s 0 x%s" % (res.wn, res.wend, tf(res.wclosed), res.sent.hex())
+        batch.add(("wire send %s %d %s %s" % (tf(cs), mx, Script(res.strace).text(), " ".join(toks))).rstrip(),
+                  want_s, case, "kernel-send")
+        wire = res.sent + tail
+        consumed = sum(int(ev[1:]) * n for ev, n in res.rtrace if ev[0] == "c")
+        stops = case["reader_stops_after"] is not None
+        ncalls = len(res.got) + (0 if res.rend == "done" else 1)
+        want_r = "%s %s 0 %d [ %s]" % (res.rend, "F" if stops else tf(res.rclosed), len(wire) - consumed,
+                                       "".join("x%s " % g.hex() for g in res.got))
+        ztoks = [tk for tk in toks if tk[0] == "Z"]
+        batch.add(("wire recv %s %d %d %s x%s %s" % (tf(case["kind"] == "sock"), mx, ncalls, Script(res.rtrace).text(),
+                                                     wire.hex(), " ".join(ztoks))).rstrip(), want_r, case, "kernel-recv")
+        corr.count("group:" + case["group"])
+        corr.count("kernel:%s:reader:%s" % (case["kind"], res.rend))
+        corr.count("kernel:%s:writer:%s" % (case["kind"], res.wend))
+        corr.count("kernel:poll-before-the-read-that-meets-the-end:%s" % (res.polled,))
+        corr.count("kernel:recv-calls", sum(n for _e, n in res.rtrace))
+        corr.count("kernel:send-calls", sum(n for _e, n in res.strace))
+        corr.count("kernel:EAGAIN-from-the-kernel", res.eagain)
+        corr.count("kernel:partial-recv", sum(n for e, n in res.rtrace if e[0] == "c"))
+        corr.signatures.add(("kernel", case["group"], case["kind"], tuple(size_class(len(p)) for p in packets),
+                             res.rend, res.wend, len(res.got)))
+        return dict(case=compact(case), send_trace=Script(res.strace).text()[:200], recv_trace=Script(res.rtrace).text()[:200],
+                    outcome="reader: %d packets then %s closed=%s; writer: %d sent then %s" % (
+                        len(res.got), res.rend, res.rclosed, res.wn, res.wend))
     raise ValueError(op)
+
+
+def duplex_line(case, outs):
+    c = case["c"]
+    it = iter(outs)
+    toks = []
+    for o in case["ops"]:
+        toks.append("S" + pkt_token(next(it), c) if o == "S" else o)
+    table = [pkt_token(make_packet(x), True) for x in case["incoming"]] if case["peer_c"] else []
+    kind = "pipe" if case["pipe"] else "sock"
+    return ("wire duplex %s %d %s %s %s %s %s x%s %s %s" % (
+        tf(case["pipe"]), max_of(kind, case["max"]), tf(c), {0: "n", 1: "1", 2: "2"}[case["fault"]],
+        Script(case["rscript"]).text(), Script(case["sscript"]).text(), Script(case["pscript"]).text(), case["wire"],
+        " ".join(toks), " ".join(table))).rstrip()
+
+
+def duplex_property(case, res, outs):
+    """statement-level check of one duplex run on the real code (no model): packets returned are a prefix of the
+    packets on the incoming wire; what the transport accepted decodes to the packets whose send returned, in order;
+    EOFError only with a closed stream; other exceptions only where the descriptor itself misbehaved (failing
+    close(), failing poll()/fileno(): excluded from 'EOFError + closed' by assumption)"""
+    incoming = [make_packet(x) for x in case["incoming"]]
+    got = [bytes.fromhex(x[4:]) for o, x in zip(case["ops"], res["results"]) if o == "R" and x.startswith("ok:x")]
+    if got != incoming[:len(got)]:
+        return "a packet returned by recv() is not the next packet of the incoming stream"
+    ok_sent = []
+    it = iter(outs)
+    for o, x in zip(case["ops"], res["results"]):
+        if o == "S":
+            p = next(it)
+            if x == "ok":
+                ok_sent.append(p)
+    raw_writes = any(o[0] == "w" and len(o) > 2 for o in case["ops"])
+    if ok_sent and not raw_writes:
+        back = run_recv("sock", False, None, res["sent"], ["c%d*%d" % (BIG, len(res["sent"]) + 3)], len(ok_sent))
+        if back["got"] != ok_sent:
+            return "the bytes the transport accepted do not decode to the packets whose send() returned"
+    kinds = [x.split(":")[0] for x in res["results"]]
+    if "EOFError" in kinds and res["closed"] != "T":
+        return "EOFError was raised but the stream is not closed at the end"
+    odd = [k for k in kinds if k not in ("ok", "T", "F", "EOFError", "starved")]
+    excused = case["fault"] or any(ev[0] in "sgf" for ev in Script(case["pscript"]).text().replace("*", ",").split(","))
+    corrupt_ok = "zlib.error" in odd and False
+    if odd and not excused and not corrupt_ok:
+        return "unexpected exception(s) %s with a well-behaved descriptor" % sorted(set(odd))
+    return None
+
+
+def run_kernel(case):
+    channel, _S = mods()
+    packets = [make_packet(x) for x in case["packets"]]
+    tail = b""
+    if case["cut"] is not None:
+        extra = make_packet([60, "r", 77])
+        frame = channel.Channel.FRAME_HEADER.pack(len(extra), 0) + extra + channel.Channel.FLUSHER
+        tail = frame[:min(case["cut"], len(frame) - 1)]
+    res = wire_kernel.run_pair(case["kind"], Rng(case["seed"]), packets, case["cs"], case["cr"], tail=tail,
+                               reader_stops_after=case["reader_stops_after"], nonblocking=case["nonblocking"],
+                               timeouts=tuple(case["timeouts"]), bufsize=case["bufsize"], reset=case["reset"])
+    return packets, tail, res
+
+
+def kernel_property(case, packets, res):
+    """the property on one real-kernel transfer (no model)"""
+    if res.hung or res.werror:
+        return "writer thread %s" % ("did not finish" if res.hung else "crashed: %s" % res.werror)
+    if res.got != packets[:len(res.got)]:
+        return "a packet received over the kernel transport differs from the packet sent"
+    if case["reader_stops_after"] is not None:
+        if res.wend not in ("done", "EOFError"):
+            return "writer raised %s" % res.wend
+        if res.wend == "EOFError" and not res.wclosed:
+            return "writer got EOFError but its stream is not closed"
+        return None
+    if res.wend != "done":
+        return "writer ended with %s on a healthy transport" % res.wend
+    if len(res.got) != len(packets):
+        return "only %d of %d packets arrived over a healthy kernel transport (%s)" % (len(res.got), len(packets), res.rend)
+    if res.rend != "EOFError" or not res.rclosed:
+        return "after the writer went away the reader got %s, closed=%s" % (res.rend, res.rclosed)
+    if res.polled is not True:
+        return "poll() before the read that meets the end of the transport answered %r" % (res.polled,)
+    return None
 
 
 def correspondence(ctx):
@@ -621,7 +881,8 @@ def correspondence(ctx):
     n = 0
     try:
         gens = [gen_transfer_cases(r.fork("xfer"), ctx), gen_fault_cases(r.fork("fault"), ctx),
-                gen_stream_cases(r.fork("stream"), ctx), gen_rawwire_cases(r.fork("raw"), ctx)]
+                gen_stream_cases(r.fork("stream"), ctx), gen_rawwire_cases(r.fork("raw"), ctx),
+                gen_duplex_cases(r.fork("duplex"), ctx), gen_kernel_cases(r.fork("kernel"), ctx)]
         for g in gens:
             for case in g:
                 n += 1
@@ -634,6 +895,22 @@ def correspondence(ctx):
         c.error = str(ex)
         return c
     c.extra["scripts_run"] = n
+    c.extra["kernel_probes"] = wire_kernel.probe_dead_peer_poll()
+    lost, text = wire_kernel.probe_pipe_wouldblock()
+    c.extra["observations_outside_the_claim"] = [
+        "PipeStream on a real pipe whose read end is O_NONBLOCK (set by the application or by a process sharing the "
+        "open file description; rpyc itself never sets it): " + text,
+        "the descriptor's own close() raising inside the failure path of read/write (FakeSocket/FakePipe close_fault): "
+        "that OSError propagates instead of EOFError and stream.closed stays False (modelled: Rpyc.Wire.dClose); "
+        "Stream.poll re-raises a failing poll()/refused descriptor as select_error with the stream left open and "
+        "SocketStream.fileno re-raises a non-EBADF socket.error after closing (modelled: Rpyc.Wire.dPoll); on kernel "
+        "sockets/pipes a dead peer makes poll() answer True (kernel_probes) and the failure is met by read",
+    ]
+    for k, v in c.extra["kernel_probes"].items():
+        want = ("raised OSError closed=False" if k.endswith("application -> poll") else
+                "True" if k.endswith("-> poll") else "raised EOFError closed=True")
+        if v != want:
+            c.disagreements.append(dict(op="kernel-probe", case=dict(op="probe", probe=k), impl=v, model=want))
     c.exhaustive = False
     return c
 
@@ -736,12 +1013,18 @@ def oracle_case(case):
         return oracle_reads(case)
     if op == "swrites":
         return oracle_swrites(case)
+    if op == "duplex":
+        outs = [make_packet(x) for x in case["outgoing"]]
+        return duplex_property(case, run_duplex(case, outs), outs)
+    if op == "kernel":
+        packets, _tail, res = run_kernel(case)
+        return kernel_property(case, packets, res)
     return None
 
 
 def uncompact(case):
     c = dict(case)
-    for k in ("sscript", "rscript", "script"):
+    for k in ("sscript", "rscript", "script", "pscript"):
         if k in c and isinstance(c[k], str):
             if c[k].endswith("...(truncated)"):
                 return None
@@ -794,7 +1077,8 @@ def oracle_search(ctx, corr, broken):
                 yield c
         n = 0
         for g in (gen_transfer_cases(r.fork("xfer"), ctx), gen_fault_cases(r.fork("fault"), ctx),
-                  gen_stream_cases(r.fork("stream"), ctx)):
+                  gen_stream_cases(r.fork("stream"), ctx), gen_duplex_cases(r.fork("duplex"), ctx),
+                  gen_kernel_cases(r.fork("kernel"), ctx)):
             for case in g:
                 n += 1
                 case.setdefault("script_seed", n)
@@ -835,7 +1119,7 @@ def oracle_search(ctx, corr, broken):
         if len(Script(ss).text()) < 4000 and len(Script(rs).text()) < 4000:
             case = dict(case, sscript=ss, rscript=rs)
     out = compact(case)
-    out["kind"] = "fault" if case.get("expect") == "safe" or case.get("op") in ("reads", "swrites") else "input"
+    out["kind"] = "fault" if case.get("expect") == "safe" or case.get("op") in ("reads", "swrites", "duplex", "kernel") else "input"
     return out, msg, signature_of(msg)
 
 
@@ -862,3 +1146,17 @@ def replay(case):
         out["model"] = [x[:2000] for x in run_driver([it[0] for it in items], exe="drv_wire")]
         out["agree"] = not corr.disagreements
     return out
+
+
+# ----------------------------------------------------------------------------------------------- known findings
+PIPE_WOULDBLOCK = "c05:pipe-wouldblock-is-fatal"
+
+
+def known_probes(ctx):
+    """Armed only while known_findings.json lists the signature with status 'known' (the classification is the
+    coordinator's decision; until then the observation is printed in the evidence under
+    observations_outside_the_claim).  The witness is Rpyc.Props.C05.pipe_wouldblock_counterexample."""
+    if PIPE_WOULDBLOCK not in getattr(ctx, "known_signatures", ()):
+        return []
+    lost, text = wire_kernel.probe_pipe_wouldblock()
+    return [(PIPE_WOULDBLOCK, lost, "a would-block reported by os.read on a pipe is fatal: " + text)]
